@@ -454,7 +454,7 @@ def mark_big(c):
     meshes = c.get('meshes') or [c['mesh']]
     if any(is_big(m) for m in meshes) and not c.get('full_model'):
         c.setdefault('oracle_only', True)
-        c.setdefault('stagewise', not c.get('meshes'))
+        c.setdefault('stagewise', not any(q['kind'] == 'mod' for q in c['queries']))
     return c
 
 
